@@ -72,14 +72,32 @@ def fallback_rule(rep, prog):
                 continue
             X = src(t.handlers[0].type)
             fa, fb = prog.mods[a[1]].funcs[a[2]], prog.mods[b[1]].funcs[b[2]]
-            btests = {src(i.test) for i in ast.walk(fb) if isinstance(i, ast.If)}
+            def canon(test, fn):
+                """Test text with the function's first parameter renamed and `not (a OP b)` written as the opposite comparison."""
+                import copy
+                t2 = copy.deepcopy(test)
+                par = fn.args.args[0].arg if fn.args.args else None
+                flip = {ast.Eq: ast.NotEq, ast.NotEq: ast.Eq, ast.Lt: ast.GtE, ast.GtE: ast.Lt, ast.Gt: ast.LtE, ast.LtE: ast.Gt, ast.In: ast.NotIn, ast.NotIn: ast.In,
+                        ast.Is: ast.IsNot, ast.IsNot: ast.Is}
+
+                class N(ast.NodeTransformer):
+                    def visit_Name(self, n):
+                        return ast.copy_location(ast.Name(id='_arg_', ctx=n.ctx), n) if n.id == par else n
+
+                    def visit_UnaryOp(self, n):
+                        self.generic_visit(n)
+                        if isinstance(n.op, ast.Not) and isinstance(n.operand, ast.Compare) and len(n.operand.ops) == 1 and type(n.operand.ops[0]) in flip:
+                            return ast.Compare(left=n.operand.left, ops=[flip[type(n.operand.ops[0])]()], comparators=n.operand.comparators)
+                        return n
+                return src(ast.fix_missing_locations(N().visit(t2)))
+            btests = {canon(i.test, fb) for i in ast.walk(fb) if isinstance(i, ast.If)}
             for i in ast.walk(fa):
                 if isinstance(i, ast.If) and any(isinstance(x, ast.Raise) for x in i.body):
                     cls = next((src(x.exc.func if isinstance(x.exc, ast.Call) else x.exc) for x in i.body if isinstance(x, ast.Raise) and x.exc is not None), '')
                     if cls == X:
                         continue
                     n_ += 1
-                    rep.check(src(i.test) in btests, 'C09.fallback', rel(prog.mods[a[1]].path), a[2], 'if %s' % src(i.test), i.lineno,
+                    rep.check(canon(i.test, fa) in btests, 'C09.fallback', rel(prog.mods[a[1]].path), a[2], 'if %s' % src(i.test), i.lineno,
                               '%s.validate() tries %s.validate() and falls back to %s.validate() only on %s; this gate of %s raises %s and %s has no such gate: '
                               'a number it stops is never offered to %s although %s may accept it'
                               % (mn.replace('stdnum.', ''), a[1].replace('stdnum.', ''), b[1].replace('stdnum.', ''), X, a[1].replace('stdnum.', ''), cls,
